@@ -235,7 +235,7 @@ void doit(Trace& tr, const std::string& tag, uint64_t seed, int ncases) {
     std::vector<double> fd(S * S, 0.);
     bool okfd = ok;
     for (int j = 0; j < S && okfd; ++j) {
-      const double hst = 1e-7 * std::max(1e-4, std::fabs(in[S + j]));
+      const double hst = 1e-4 * std::max(1e-4, std::fabs(in[S + j]));
       auto ip = in, im = in;
       ip[S + j] += hst;
       im[S + j] -= hst;
